@@ -6,3 +6,36 @@ package ringhash
 
 // The ring's hash function is a pure function of its argument (crc32 by default).
 //@ purefunc Ring.hashfunc
+
+// C17: the ring. keys are ordered by (hash, key); Get returns the first key clockwise from the lookup point.
+//@ func (k sortable) Less(i int, j int) (res bool)
+//@   requires [C17] 0 <= i && i < len(k) && 0 <= j && j < len(k)
+//@   ensures [C17] def: res <==> (k[i].hash < k[j].hash || (k[i].hash == k[j].hash && k[i].key < k[j].key))
+//@   safe
+
+//@ func (ring *Ring) Signature() (res string)
+//@   ensures [C17] res == ring.signature
+
+//@ func (ring *Ring) Get(key string) (res string)
+//@   requires [C17] ring != nil
+//@   ensures [C17] empty: len(ring.keys) == 0 ==> res == ""
+//@   ensures [C17] member: len(ring.keys) > 0 ==> exists i int :: 0 <= i && i < len(ring.keys) && res == ring.keys[i].key
+//@   safe
+
+// sort.Sort applied to the ring's replicas: sorts by sortable.Less (hash, then key), only permutes (trusted).
+//@ func sortKeysModel(k sortable)
+//@   models sort.Sort
+//@   modifies k[*]
+//@   ensures [C17] forall a int, b int :: 0 <= a && a < b && b < len(k) ==> k[a].hash < k[b].hash || (k[a].hash == k[b].hash && k[a].key <= k[b].key)
+
+// Add touches nothing but the ring it is called on, and leaves the replicas ordered.
+//@ func (ring *Ring) Add(keys ...string)
+//@   requires [C17] ring != nil
+//@   modifies ring.keys, ring.signature, ring.keys[*]
+//@   loop 1 invariant [C17] keys_own: ref(ring.keys) == old(ref(ring.keys)) || fresh(ring.keys)
+//@   loop 2 invariant [C17] keys_own: ref(ring.keys) == old(ref(ring.keys)) || fresh(ring.keys)
+//@   ensures [C17] sorted: forall a int, b int :: 0 <= a && a < b && b < len(ring.keys) ==> ring.keys[a].hash < ring.keys[b].hash || (ring.keys[a].hash == ring.keys[b].hash && ring.keys[a].key <= ring.keys[b].key)
+
+//@ func New(replicas int, fn Hash) (ring *Ring)
+//@   modifies nothing
+//@   ensures [C17] ring != nil && len(ring.keys) == 0 && ring.replicas == replicas
